@@ -124,8 +124,8 @@ MC = {
     'exc': 'main:mk.h1.f1.s1.a0.d0.v-100,go,then.h1.f1.H2.g2.s1.a0.d1,get.h2.f2,get.h1.f1,del.h1.f1,del.h2.f2;r:up,runq,runq',
     'then2': 'main:mk.h1.f1.s1.a0.d1.v7,cp.h1.H4.f1,go,then.h1.f1.H2.g2.s2.a0.d1,del.h2.f2,del.h1.f1;p1:up,then.h4.f1.H3.g3.s2.a0.d0,get.h3.f3,del.h3.f3,del.h4.f1;r:up,runq',
     # the abstract pool: placed on the pool / bound to a task set (taskSet.wait() => ready), NewThreadInvoker
-    'pool': 'main:mk.h1.f1.s4.a0.d1.v7,cp.h1.H2.f1,go,get.h1.f1,del.h1.f1;p1:up,wf.h2.f1.v0,del.h2.f1',
-    'tset': 'main:mk.h1.f1.s5.a1.d0.v7.t1,then.h1.f1.H2.g2.s5.a0.d1.t1,go,tswait.t1,rdy.h1.f1,rdy.h2.f2,del.h1.f1,del.h2.f2;p1:up',
+    'pool': 'main:new.w1,mk.h1.f1.s4.a0.d1.v7,cp.h1.H2.f1,go,get.h1.f1,del.h1.f1,sync,delp;p1:up,wf.h2.f1.v0,del.h2.f1',
+    'tset': 'main:new.w1,tsnew.t1.k5,mk.h1.f1.s5.a1.d0.v7.t1,then.h1.f1.H2.g2.s5.a0.d1.t1,tswait.t1,rdy.h1.f1,rdy.h2.f2,del.h1.f1,del.h2.f2,tsdel.t1,delp',
     'newthread': 'main:mk.h1.f1.s3.a0.d1.v7,cp.h1.H2.f1,go,get.h1.f1,del.h1.f1;p1:up,wait.h2.f1,del.h2.f1',
     # when_all / when_any: inputs complete before / during / after registration; the result is run by the last
     # callback or inline by a getter; empty and singleton inputs
@@ -134,7 +134,7 @@ MC = {
     'wall0': 'main:wall.h3.f1.I.i.y,get.h3.f1,del.h3.f1;p1:wany.h4.f2.I.i.y,get.h4.f2,del.h4.f2',
     'wany': 'main:mk.h1.f1.s1.a0.d1.v7,mk.h2.f2.s1.a0.d1.v8,go,wany.h3.f3.I1_2.i1_2.y4_5,get.h3.f3,del.h3.f3,del.h1.f1,del.h2.f2;r:up,runq,runq',
     'wany1': 'main:mk.h1.f1.s1.a0.d1.v7,go,wany.h3.f2.I1.i1.y3,get.h3.f2,del.h3.f2,del.h1.f1;r:up,runq',
-    'wallts': 'main:mk.h1.f1.s1.a0.d1.v7,go,wall.h3.f2.I1.i1.y3.t1,tswait.t1,rdy.h3.f2,del.h3.f2,del.h1.f1;r:up,runq',
+    'wallts': 'main:new.w0,tsnew.t1.k5,mk.h1.f1.s1.a0.d1.v7,go,wall.h3.f2.I1.i1.y3.t1,tswait.t1,rdy.h3.f2,del.h3.f2,del.h1.f1,sync,tsdel.t1,delp;r:up,runq',
 }
 
 
